@@ -173,6 +173,11 @@ Theorem C11_daemon_level_refinement : forall cfg steps,
   exists obs spec, model_run cfg steps = Ok obs /\ spec_run cfg steps = Ok spec /\ Forall2 io_eq obs spec.
 Proof. exact sim_refines. Qed.
 
+(* refresh needs an open search: with no browse and no hostname resolver, no query is sent *)
+Theorem C11_refresh_needs_open_search : forall c now nsb nsh recs c' o,
+  sim_iter trec trec_ops (mkCfg None None) c now nsb nsh recs = Ok (c', o) -> io_queries o = [].
+Proof. exact no_search_no_queries. Qed.
+
 (* ---- non-vacuity ---- *)
 
 (* a record received at 1 000 000 with TTL 120: a wake-up schedule that skips the 85 % mark
@@ -220,6 +225,7 @@ Proof. vm_compute. reflexivity. Qed.
 
 Print Assumptions C11_lifetime.
 Print Assumptions C11_daemon_level_refinement.
+Print Assumptions C11_refresh_needs_open_search.
 Print Assumptions C11_lifetime_wire.
 Print Assumptions C11_lifetime_frame.
 Print Assumptions C11_refresh_marks.
